@@ -2,7 +2,9 @@ package main
 
 import (
 	"bytes"
+	"encoding/binary"
 	"fmt"
+	"hash/fnv"
 	"net"
 	"sort"
 	"strconv"
@@ -76,17 +78,20 @@ type natMapping struct {
 }
 
 type natSys struct {
-	mode   string
-	cfg    natCfg
-	z      *vnet.ZZNAT
-	byKey  map[string]*natMapping // internal|bound -> newest mapping with that key
-	byExt  map[string]*natMapping // external endpoint -> newest mapping that held it
-	extSet map[string]bool
-	exts   []string
-	dead   bool
-	seq    int
-	alpha  []string
-	lastOp *string
+	historyKey bool     // identify states by their history instead of a dump (deep starts)
+	hist       []string // every operation so far (only kept with historyKey)
+	nops       int      // operations so far (selects the IP representation of the next chunk)
+	mode       string
+	cfg        natCfg
+	z          *vnet.ZZNAT
+	byKey      map[string]*natMapping // internal|bound -> newest mapping with that key
+	byExt      map[string]*natMapping // external endpoint -> newest mapping that held it
+	extSet     map[string]bool
+	exts       []string
+	dead       bool
+	seq        int
+	alpha      []string
+	lastOp     *string
 }
 
 func newNatSys(mode string, cfg natCfg, alpha []string, lastOp *string) *natSys {
@@ -166,6 +171,9 @@ func (s *natSys) liveByExt(ext string, now time.Duration) (*natMapping, int) {
 
 func (s *natSys) Apply(op string) (obs, sig, msg string) {
 	defer panicAsViolation(op, &sig, &msg)
+	if s.historyKey {
+		s.hist = append(s.hist, op)
+	}
 	if s.lastOp != nil {
 		*s.lastOp = op
 	}
@@ -188,7 +196,11 @@ func (s *natSys) Apply(op string) (obs, sig, msg string) {
 		return "t", "", ""
 	case "O":
 		src, dst := natEP(f[1]), natEP(f[2])
+		// equal addresses arrive in both slice representations: alternately 4-byte and 16-byte
+		s.nops++
+		vnet.ZZIPForm = 4 + 12*(s.nops%2)
 		nsrc, ndst, data, ok, err := s.z.Outbound(src, dst, payload)
+		vnet.ZZIPForm = 0
 		if s.cfg.oneToOne > 0 {
 			return s.outbound1to1(src, dst, nsrc, ndst, data, keep, ok, err)
 		}
@@ -294,7 +306,10 @@ func (s *natSys) Apply(op string) (obs, sig, msg string) {
 		default:
 			dst = natEP(f[2])
 		}
+		s.nops++
+		vnet.ZZIPForm = 4 + 12*(s.nops%2)
 		nsrc, ndst, data, err := s.z.Inbound(src, dst, payload)
+		vnet.ZZIPForm = 0
 		if s.cfg.oneToOne > 0 {
 			return s.inbound1to1(src, dst, nsrc, ndst, data, keep, err)
 		}
@@ -412,6 +427,17 @@ func (s *natSys) inbound1to1(src, dst, nsrc, ndst string, data, keep []byte, err
 }
 
 func (s *natSys) Key() stateKey {
+	if s.historyKey {
+		// deep starts: dumping a 16384-entry table per state costs more than the few merges would save;
+		// the state is identified by its history (no merging: an over-fine abstraction only costs time)
+		h := fnv.New128a()
+		for _, op := range s.hist {
+			_, _ = h.Write([]byte(op))
+			_, _ = h.Write([]byte{0})
+		}
+		sum := h.Sum(nil)
+		return stateKey{binary.LittleEndian.Uint64(sum[:8]), binary.LittleEndian.Uint64(sum[8:])}
+	}
 	var ms []string
 	for _, m := range s.byExt {
 		var fs []string
@@ -487,7 +513,7 @@ func runNATBody(mode, tier string, shard, shards int, rep *SeqReport, lastOp, cu
 	}
 	cfgs = append(cfgs, natCfg{mapping: vnet.EndpointIndependent, filtering: vnet.EndpointIndependent, twoIPs: true},
 		natCfg{mapping: vnet.EndpointAddrPortDependent, filtering: vnet.EndpointAddrDependent, twoIPs: true})
-	depth, maxStates := 5, int64(150000)
+	depth, maxStates := 5, int64(100000)
 	if thorough {
 		depth, maxStates = 7, 600000
 	}
@@ -536,7 +562,7 @@ func runNATBody(mode, tier string, shard, shards int, rep *SeqReport, lastOp, cu
 					alpha = append(alpha, "O A2 X1", "O B1 Y1", "I Z9 E0", "O P1 X1")
 				}
 				*curFam = fmt.Sprintf("deep %s n=%d expired=%v", cfg, n, expired)
-				r := bfs(fmt.Sprintf("nat-deep %s n=%d expired=%v", cfg, n, expired), func() seqSystem { return newNatSys(mode, cfg, alpha, lastOp) }, prefix, d, 3000, rep)
+				r := bfs(fmt.Sprintf("nat-deep %s n=%d expired=%v", cfg, n, expired), func() seqSystem { n := newNatSys(mode, cfg, alpha, lastOp); n.historyKey = true; return n }, prefix, d, 3000, rep)
 				rep.family("port-range-deep-start", r.transitions)
 			}
 		}
@@ -569,7 +595,7 @@ func runNATBody(mode, tier string, shard, shards int, rep *SeqReport, lastOp, cu
 			}
 			alpha := []string{"O A1 X1", "O A2 X1", "O P0 X1", "I X1 E0", "I X1 EL"}
 			*curFam = fmt.Sprintf("deep-mixed %s refill=%d", cfg, refill)
-			r := bfs(fmt.Sprintf("nat-deep-mixed %s refill=%d", cfg, refill), func() seqSystem { return newNatSys(mode, cfg, alpha, lastOp) }, prefix, md, 3000, rep)
+			r := bfs(fmt.Sprintf("nat-deep-mixed %s refill=%d", cfg, refill), func() seqSystem { n := newNatSys(mode, cfg, alpha, lastOp); n.historyKey = true; return n }, prefix, md, 3000, rep)
 			rep.family("port-range-deep-start-mixed-age", r.transitions)
 		}
 	}
@@ -579,7 +605,7 @@ func init() {
 	assume := []string{"3 internal endpoints (two sharing an IP), 4 remotes (two sharing an IP, one never contacted), lifetimes {30 s, 100 ms}",
 		"time advances only by lifetime/2-1ms and lifetime+1ms steps, so no probe lands within 1 us of an expiry instant (left unconstrained by the property)",
 		"allocation is 'some fresh endpoint': the model adopts the port the implementation chose and checks validity, ownership and uniqueness"}
-	rule := "explicit-state BFS (depth 5 quick / 7 thorough, states merged on a reflective dump of the translator + model) over {outbound i->r, inbound r->e for every external endpoint seen so far and a never-allocated one, advance half / full lifetime} for all 9 mapping x filtering behaviours x 2 lifetimes and 1:1 mode with 1..3 IP pairs, from the empty table, from deep starts with 16382/16383/16384 live (and expired) mappings, and from a full table of mixed age (both end ports old-but-live, the middle re-allocated after expiry); every translation result is compared with an RFC 4787 table model"
+	rule := "explicit-state BFS (depth 5 quick / 7 thorough, states merged on a reflective dump of the translator + model) over {outbound i->r, inbound r->e for every external endpoint seen so far and a never-allocated one, advance half / full lifetime} for all 9 mapping x filtering behaviours x 2 lifetimes and 1:1 mode with 1..3 IP pairs, from the empty table, from deep starts with 16382/16383/16384 live (and expired) mappings, and from a full table of mixed age (both end ports old-but-live, the middle re-allocated after expiry); every translation result is compared with an RFC 4787 table model; the IPv4 addresses of successive datagrams alternate between 4-byte and 16-byte representation"
 	register(&Check{ID: "C02", Seq: func(t string, k, n int, r *SeqReport) { runNAT("C02", t, k, n, r) }, Rule: rule, Assumptions: assume})
 	register(&Check{ID: "C03", Seq: func(t string, k, n int, r *SeqReport) { runNAT("C03", t, k, n, r) }, Rule: rule, Assumptions: assume})
 }
